@@ -17,6 +17,7 @@ func cmdChain(args []string) {
 	focus := fs.String("focus", "mixed", "weight set: mixed, ent, reg, stream, fees (comma separated: cycled)")
 	per := fs.Int("shard", 4, "traces per Coq file")
 	props := fs.String("props", "", "comma separated property ids whose Go monitors count (empty = all)")
+	entenum := fs.Int("entenum", 0, "number of small-scope enumeration chains for C03 (0 = none, 216 = all)")
 	fs.Parse(args)
 	seed := seedFromEnv()
 	focuses := strings.Split(*focus, ",")
@@ -42,18 +43,7 @@ func cmdChain(args []string) {
 	distinct := map[string]bool{}
 	nontrivial := 0
 	var samples []string
-	for i := 0; i < *n; i++ {
-		r := newRng(seed*1_000_003 + uint64(i))
-		fname := focuses[i%len(focuses)]
-		w, ok := focusWeights[fname]
-		if !ok {
-			panic("unknown focus " + fname)
-		}
-		c := newChain(randCfg(r, w.tinyLimits))
-		h := newHistory(c, r, w)
-		tr := h.run(*blocks)
-		c.close()
-		traces = append(traces, tr)
+	absorb := func(h *history, i int) {
 		for k, v := range h.kinds {
 			kinds[k] += v
 		}
@@ -72,6 +62,34 @@ func cmdChain(args []string) {
 		totalOps += h.nOps
 		totalTx += h.nTx
 		totalOk += h.nOk
+	}
+	if *entenum > 0 {
+		all := allEntEnumCfgs()
+		for j := 0; j < *entenum && j < len(all); j++ {
+			e := all[(int(seed)*37+j*(len(all) / *entenum+1))%len(all)]
+			if *entenum >= len(all) {
+				e = all[j]
+			}
+			h, tr := runEntEnum(e, newRng(seed*31+uint64(j)))
+			traces = append(traces, tr)
+			absorb(h, 10000+j)
+			nontrivial++
+		}
+	}
+	for i := 0; i < *n; i++ {
+		r := newRng(seed*1_000_003 + uint64(i))
+		fname := focuses[i%len(focuses)]
+		w, ok := focusWeights[fname]
+		if !ok {
+			panic("unknown focus " + fname)
+		}
+		c := newChain(randCfg(r, w.tinyLimits))
+		h := newHistory(c, r, w)
+		h.focus = fname
+		tr := h.run(*blocks)
+		c.close()
+		traces = append(traces, tr)
+		absorb(h, i)
 		key := fmt.Sprintf("%x", hashString(strings.Join(h.items, "|")))
 		if !distinct[key] && h.nOk >= 3 {
 			nontrivial++
